@@ -269,10 +269,11 @@ Restore(f, td, sort, reply, ow) ==
   \E ls \in SeqsNoRep(Offerable(cfg, St, f, td)) :
     /\ IsListing(cfg, St, f, td, sort, ls)
     /\ LET r == RestoreApply(cfg, St, ls, reply, ow) IN
-       /\ ~r.undef
+       \* undef: the run met a case the properties leave open (overwrite onto a directory, an entry without payload);
+       \* the label says so and the post-state of such a step is not constrained
        /\ SetSt(r.st)
        /\ out' = [cmd |-> "restore", from |-> f, td |-> td, sort |-> sort, reply |-> reply, ow |-> ow,
-                  exit |-> r.out.exit, listing |-> r.out.listing]
+                  exit |-> IF r.undef THEN "any" ELSE r.out.exit, listing |-> r.out.listing, undef |-> r.undef]
     /\ UNCHANGED cfg
 
 -----------------------------------------------------------------------------
